@@ -10,10 +10,11 @@ failed copy changes nothing, and after every successful copy a second pass check
 destination is Ok and Equals the source.
 """
 import collections
+import random
 import time
 import json
 
-from harness.lib import common, cppdrv, embref, viewcorr
+from harness.lib import common, cppdrv, embgen, embref, viewcorr
 
 PROP = "C20"
 KEY_PARAM = "compile:equals-on-parameterized-struct"
@@ -108,6 +109,7 @@ def _run(chk, tier, model_ok):
     r = common.rng("C20")
     quick = tier == "quick"
     stats = collections.Counter()
+    phase, t0 = {}, time.time()
     # does Equals on a structure with a runtime parameter compile?  (pinned known finding)
     probe = cppdrv.prepare(PARAM_PROBE)
     (pb, plog), = cppdrv.build([probe], features=("eq",), eq_params_ok=True)
@@ -121,10 +123,26 @@ def _run(chk, tier, model_ok):
                                     "observed": plog[-1500:], "expected": "Equals compiles"}, key=KEY_PARAM)
     cases, dist = viewcorr.make_cases(chk, r, 14 if quick else 100, corpus_prop=PROP,
                                       testdata=viewcorr.TESTDATA[:8] if quick else viewcorr.TESTDATA)
+    # arrays of 1/2/3-byte structures with padding bits/bytes and conditional members: a fixed family
+    # (independent of VERIF_SEED; covers every (element size, style) combination) + seeded ones
+    combos = embgen.PADDED_ELEM_COMBOS
+    pmods = [embgen.gen_padded_array_module(random.Random(1000 + i), combos[2 * i:2 * i + 2])
+             for i in range(len(combos) // 2)]
+    padded = viewcorr.generated_cases(pmods, "padded-fixed", dist)
+    if len(padded) != len(pmods):
+        raise common.InfraError("a module of the fixed padded-array family is rejected by the front end: %r"
+                                % dict(dist.reject_reasons))
+    padded += viewcorr.generated_cases([embgen.gen_padded_array_module(r) for _ in range(2 if quick else 24)],
+                                       "padded-random", dist)
+    cases += padded
+    phase["generate+front_end"] = round(time.time() - t0, 1)
+    t0 = time.time()
     failed = viewcorr.build_cases(cases, features=("eq", "cp"), workers=8, eq_params_ok=eq_params_ok,
                                   std="c++14" if quick else "c++17")
     for c in failed:
         raise common.InfraError("driver of %s does not compile: %s" % (c.name, c.build_log[-1500:]))
+    phase["g++"] = round(time.time() - t0, 1)
+    t0 = time.time()
     per_case = []
     crashes = []
     for case in cases:
@@ -133,6 +151,13 @@ def _run(chk, tier, model_ok):
             break
         cmds = viewcorr.pinned_commands(case, ("EQ", "CP", "CPO")) + \
             viewcorr.pair_commands(r, case, 8 if quick else 24)
+        if case.gen is not None:
+            # single-bit pairs classified by the reference: exhaustive over the padded-array cases,
+            # a few bits per (class, depth, in-array) bucket on the ordinary random modules
+            pad = case.name.startswith("padded")
+            cmds += viewcorr.coverage_pair_commands(r, case, stats, n_random_bases=2 if quick else 6,
+                                                    per_class=None if pad else (2 if quick else 6),
+                                                    n_det_bases=4 if pad else 2)
 
         def on_crash(cmd, rr, case=case):
             key = viewcorr.crash_key(rr, cmd, case)
@@ -147,6 +172,9 @@ def _run(chk, tier, model_ok):
             if a is None:
                 continue
             chk.count()
+            if len(chk.violations) >= 40:
+                chk.extra["stopped_early"] = "40 violations reported; remaining commands of %s not judged" % case.name
+                break
             _spec_check(chk, case, c, a, stats, followups)
             chk.nontrivial((case.name, c.split()[1], c.split()[0], " ".join(a.split()[:5])[:24]))
         # second pass: after a successful copy the destination is Ok and Equals the source
@@ -164,6 +192,8 @@ def _run(chk, tier, model_ok):
         per_case.append((case, cmds, answers))
         if len(chk.cov["samples"]) < 5 and cmds and answers[0]:
             chk.sample({"case": case.name, "command": cmds[0], "real": answers[0][:200]})
+    phase["commands+oracles"] = round(time.time() - t0, 1)
+    t0 = time.time()
     chk.extra["sanitizer_or_check_aborts"] = [list(x) for x in crashes[:10]]
     if model_ok:
         todo = [(case, cmds) for case, cmds, _a in per_case if case.sexpr]
@@ -190,6 +220,8 @@ def _run(chk, tier, model_ok):
                             found_input=False)
         chk.extra["traces_validated_against_impl"] = validated
         chk.extra["disagreements"] = disagreements
+    phase["model"] = round(time.time() - t0, 1)
+    chk.extra["phase_seconds"] = phase
     chk.extra["generator"] = dist.as_dict()
     chk.extra["stats"] = dict(stats)
     chk.extra["equals_on_parameterized_structs_compiles"] = eq_params_ok
